@@ -9,6 +9,7 @@ import (
 	"go/token"
 	"go/types"
 	"sort"
+	"strings"
 
 	"golang.org/x/tools/go/ssa"
 )
@@ -235,8 +236,8 @@ func callOrdinal(f *ssa.Function, target ssa.Instruction) int {
 func checkMacroBudget(c *Ctx) {
 	p, r := c.P, c.R
 	const rule = "C01.macro-budget"
-	r.Rule(rule, "K1", "the keys fed to the key stack (macros, re-fed keys) are used before the terminal is read again, so a macro that runs itself skips the main loop's blocking wait forever unless feeding is bounded: the fed-key queue grows only in (*core.Keys).Feed; there, every growing store is dominated by the passing outcome of a `feeds > constant` test and preceded on every path by the increment of the counter; the counter is reset only where the queue is known to be empty (no macro is running anymore)", 3)
-	const tn, queue, counter = "core.Keys", "macroKeys", "feeds"
+	r.Rule(rule, "K1", "the keys fed to the key stack (macros, re-fed keys) are used before the terminal is read again, so a macro that runs itself skips the main loop's blocking wait forever unless feeding is bounded: the fed-key queue grows only in (*core.Keys).Feed; there, every growing store is dominated by the passing outcome of a `feeds > constant (+ keys typed)` test and preceded on every path by the increment of the counter; the counter is reset only where the queue is known to be empty (no macro is running anymore); the allowance for typed keys grows only by the length of a terminal read", 3)
+	const tn, queue, counter, typedFld = "core.Keys", "macroKeys", "feeds", "typed"
 	FEED := p.Func("(*core.Keys).Feed")
 	if FEED == nil {
 		r.Unk(rule, "(*core.Keys).Feed", "-", "anchor not found")
@@ -311,6 +312,14 @@ func checkMacroBudget(c *Ctx) {
 			if _, isK := constInt(rel.Y); isK && (rel.Op == token.LSS || rel.Op == token.LEQ) {
 				guarded = true
 			}
+			// constant + keys typed: one run per key read from the terminal on top of the budget
+			if bo, ok := rel.Y.(*ssa.BinOp); ok && bo.Op == token.ADD && (rel.Op == token.LSS || rel.Op == token.LEQ) {
+				_, kx := constInt(bo.X)
+				_, ky := constInt(bo.Y)
+				if (kx && isLoadOf(bo.Y, typedFld)) || (ky && isLoadOf(bo.X, typedFld)) {
+					guarded = true
+				}
+			}
 		}
 		if !guarded {
 			r.Bad(rule, key, p.IPos(st), "the queue grows without a dominating `feeds <= constant` outcome: a macro that runs itself feeds keys forever and Readline never reads the terminal again")
@@ -364,6 +373,42 @@ func checkMacroBudget(c *Ctx) {
 	}
 	if resets == 0 {
 		r.Unk(rule, "counter-reset", "-", "the feed counter is never reset: anchor changed (after the first runaway macro every feed would be refused)")
+	}
+	// (d) the allowance for typed keys grows only by the length of what a terminal read
+	// returned, in the functions that read the terminal, and is otherwise set to 0
+	for _, f := range p.RepoFuncs {
+		eachInstr(f, func(in ssa.Instruction) {
+			st, ok := isFieldStore(in, tn, typedFld)
+			if !ok {
+				return
+			}
+			if fa, ok := st.Addr.(*ssa.FieldAddr); ok {
+				if _, fresh := fa.X.(*ssa.Alloc); fresh {
+					return
+				}
+			}
+			r.Fn(fnName(f))
+			key := fmt.Sprintf("%s:store(typed)", fnName(f))
+			if k, isK := constInt(st.Val); isK {
+				r.Check(k == 0, rule, key+"=const", p.IPos(in), "reset to 0", "the typed-key allowance is set to a non-zero constant")
+				return
+			}
+			okGrow := false
+			if bo, isBo := st.Val.(*ssa.BinOp); isBo && bo.Op == token.ADD && isLoadOf(bo.X, typedFld) {
+				if cl, isCall := bo.Y.(*ssa.Call); isCall {
+					if b, isB := cl.Call.Value.(*ssa.Builtin); isB && b.Name() == "len" {
+						okGrow = true
+					}
+				}
+			}
+			reads := false
+			eachInstr(f, func(x ssa.Instruction) {
+				if isCallTo(x, "(*core.Keys).readInputFiltered", "(*os.File).Read") {
+					reads = true
+				}
+			})
+			r.Check(okGrow && reads, rule, key+"+=len", p.IPos(in), "grows by the length of a terminal read, in a function that reads the terminal", "the typed-key allowance grows by something other than the length of what a terminal read returned (or outside the functions that read the terminal): a macro that runs itself can raise its own budget")
+		})
 	}
 }
 
@@ -666,4 +711,211 @@ func callOrdinalAny(f *ssa.Function, target ssa.Instruction) int {
 		}
 	}
 	return -1
+}
+
+// checkSizeSentinel: C08.size-sentinel. history.NewSources tells "history-size
+// was given a value" from "it holds its integer default 0" by asking for the
+// variable as a string: the default is an int, for which GetString answers "".
+// Both halves are needed for "no limit unless one is configured".
+func checkSizeSentinel(c *Ctx) {
+	p, r := c.P, c.R
+	const rule = "C08.size-sentinel"
+	r.Rule(rule, "K3", "NewSources installs a finite default limit (a positive constant stored to maxEntries) only under a condition that is the comparison of Config.GetString(\"history-size\") with \"\", and GetString returns the asserted string or \"\" and nothing else — so the integer default 0 of the variable reads as unset and recording is not limited unless a size was configured", 2)
+	NS := p.Func("history.NewSources")
+	GS := p.Func("(*inputrc.Config).GetString")
+	if NS == nil || GS == nil {
+		r.Unk(rule, "history.NewSources / (*inputrc.Config).GetString", "-", "anchor not found")
+		return
+	}
+	r.Fn(fnName(NS), fnName(GS))
+	// (a) every store of a positive constant to maxEntries is under GetString("history-size") != ""
+	bf := blockFacts(NS)
+	n := 0
+	eachInstr(NS, func(in ssa.Instruction) {
+		st, ok := isFieldStore(in, "history.Sources", "maxEntries")
+		if !ok {
+			return
+		}
+		k, isK := constInt(st.Val)
+		if !isK || k <= 0 {
+			return
+		}
+		n++
+		guarded := false
+		for fc := range factsAt(bf, in) {
+			rel, ok := relOf(fc.Cond, fc.Val)
+			if !ok || rel.Op != token.NEQ {
+				continue
+			}
+			if s, isS := constString(rel.Y); !isS || s != "" {
+				continue
+			}
+			cl, isCall := rel.X.(*ssa.Call)
+			if !isCall || staticCallee(cl) != GS || len(cl.Call.Args) != 2 {
+				continue
+			}
+			if name, isS := constString(cl.Call.Args[1]); isS && name == "history-size" {
+				guarded = true
+			}
+		}
+		r.Check(guarded, rule, fmt.Sprintf("history.NewSources:store(maxEntries=%d)", k), p.IPos(in), "under GetString(\"history-size\") != \"\"", "the default limit is installed under a condition that is not `GetString(\"history-size\") != \"\"`: with the variable at its integer default (always present in the configuration) recording silently stops at that many entries")
+	})
+	if n == 0 {
+		r.OK(rule, "history.NewSources:no-default-limit", p.Pos(NS.Pos()), "no positive constant is stored to maxEntries")
+	}
+	// (b) GetString returns the asserted string, or ""
+	okAll, nRet := true, 0
+	var badAt ssa.Instruction
+	eachInstr(GS, func(in ssa.Instruction) {
+		ret, ok := in.(*ssa.Return)
+		if !ok || len(ret.Results) != 1 {
+			return
+		}
+		nRet++
+		v := ret.Results[0]
+		if s, isS := constString(v); isS && s == "" {
+			return
+		}
+		if ex, ok := v.(*ssa.Extract); ok && ex.Index == 0 {
+			if ta, ok := ex.Tuple.(*ssa.TypeAssert); ok && ta.CommaOk {
+				if b, isB := ta.AssertedType.Underlying().(*types.Basic); isB && b.Kind() == types.String {
+					return
+				}
+			}
+		}
+		okAll = false
+		badAt = in
+	})
+	pos := p.Pos(GS.Pos())
+	if badAt != nil {
+		pos = p.IPos(badAt)
+	}
+	r.Check(okAll && nRet > 0, rule, "(*inputrc.Config).GetString:returns", pos, "returns the asserted string or \"\"", "GetString returns something other than the stored string or \"\" (a formatted integer or boolean): callers that tell \"unset\" from the integer default by an empty answer — NewSources for history-size — now see a value")
+}
+
+// checkC04Round5: the three display defects the emulator triage found (and a
+// seeding agent independently): clear-to-end-of-row at a full row, "the row is
+// full" tested by lineCol alone, and rows computed by dividing the total width.
+func checkC04Round5(c *Ctx) {
+	p, r := c.P, c.R
+	isWidth := func(v ssa.Value) bool {
+		cl, ok := v.(*ssa.Call)
+		return ok && calleeName(cl) == "term.GetWidth"
+	}
+	isFieldOf := func(tn string, flds ...string) func(ssa.Value) bool {
+		return func(v ssa.Value) bool {
+			u, ok := v.(*ssa.UnOp)
+			if !ok || u.Op != token.MUL {
+				return false
+			}
+			t, f, ok := fieldOf(u.X)
+			if !ok || t != tn {
+				return false
+			}
+			for _, x := range flds {
+				if x == f {
+					return true
+				}
+			}
+			return false
+		}
+	}
+	// ---- C04.full-row-clear
+	r.Rule("C04.full-row-clear", "K4", "where the text of a buffer line is followed by \"clear to the end of the row\" in the same output (display.Engine.displayLine for the last line, core.DisplayLine for the others), the clear is added only under a test that depends on where the line ends (lineCol, or a width compared with term.GetWidth): at a full row the cursor stays on the last column with the wrap pending, and a VT100 erases the character under it", 2)
+	for _, fn := range []string{"(*display.Engine).displayLine", "core.DisplayLine"} {
+		f := p.Func(fn)
+		if f == nil {
+			r.Unk("C04.full-row-clear", fn, "-", "anchor not found")
+			continue
+		}
+		r.Fn(fn)
+		bf := blockFacts(f)
+		n := 0
+		eachInstr(f, func(in ssa.Instruction) {
+			bo, ok := in.(*ssa.BinOp)
+			if !ok || bo.Op != token.ADD {
+				return
+			}
+			s, isS := constString(bo.Y)
+			if !isS || s != "\x1b[0K" {
+				return
+			}
+			if _, isK := bo.X.(*ssa.Const); isK {
+				return
+			}
+			n++
+			guarded := false
+			for fc := range factsAt(bf, in) {
+				if dependsOn(fc.Cond, func(v ssa.Value) bool { return isWidth(v) || isFieldOf("display.Engine", "lineCol")(v) }) {
+					guarded = true
+				}
+			}
+			r.Check(guarded, "C04.full-row-clear", fmt.Sprintf("%s:clear-after-text#%d", fn, n), p.IPos(in), "added under a test of where the line ends", "\"clear to the end of the row\" is appended to the text of the line unconditionally: when the line ends exactly on the last column, the terminal erases its last character")
+		})
+		if n == 0 {
+			r.OK("C04.full-row-clear", fn+":no-clear-after-text", p.Pos(f.Pos()), "the function does not append the clear sequence to line text")
+		}
+	}
+	// ---- C04.full-row-nonempty
+	r.Rule("C04.full-row-nonempty", "K3", "displayLine moves to the next row after a line that fills its last row exactly; lineCol == 0 alone also holds for a row with nothing on it (no prompt and an empty buffer, a buffer ending with a newline): the test also depends on the prompt width (startCols) or on the text of the buffer, otherwise every redisplay of such a buffer moves one row down", 1)
+	if DL := p.Func("(*display.Engine).displayLine"); DL != nil {
+		bf := blockFacts(DL)
+		n := 0
+		eachInstr(DL, func(in ssa.Instruction) {
+			cl, ok := in.(*ssa.Call)
+			if !ok || !strings.HasPrefix(calleeName(cl), "fmt.Print") {
+				return
+			}
+			// the argument is the "\r\n" constant
+			isNL := false
+			for _, a := range cl.Call.Args {
+				if dependsOn(a, func(v ssa.Value) bool { s, ok := constString(v); return ok && s == "\r\n" }) {
+					isNL = true
+				}
+			}
+			if !isNL {
+				return
+			}
+			n++
+			col, other := false, false
+			for fc := range factsAt(bf, in) {
+				if dependsOn(fc.Cond, isFieldOf("display.Engine", "lineCol")) {
+					col = true
+				}
+				if dependsOn(fc.Cond, func(v ssa.Value) bool { return isFieldOf("display.Engine", "startCols", "line")(v) }) {
+					other = true
+				}
+			}
+			r.Check(col && other, "C04.full-row-nonempty", fmt.Sprintf("(*display.Engine).displayLine:newline#%d", n), p.IPos(in), "under lineCol and the prompt width / buffer text", "the move to the next row after the line is decided by lineCol alone (or not by lineCol at all): with no prompt and an empty buffer, or a buffer ending with a newline, the row is empty, not full, and every redisplay moves one row down")
+		})
+		if n == 0 {
+			r.Unk("C04.full-row-nonempty", "(*display.Engine).displayLine:newline", p.Pos(DL.Pos()), "no newline print found: anchor changed")
+		}
+	}
+	// ---- C04.wide-wrap
+	r.Rule("C04.wide-wrap", "K3", "strutil.LineSpan (behind the cursor, line and hint coordinates) does not obtain rows and columns by dividing a width that depends on the text of the line by the terminal width: a double-width character that does not fit in the last column wraps early and leaves that column unused, which a division of the total cannot see", 1)
+	if LS := p.Func("strutil.LineSpan"); LS != nil && len(LS.Params) > 0 {
+		r.Fn(fnName(LS))
+		lineParam := LS.Params[0]
+		n, bad := 0, 0
+		eachInstr(LS, func(in ssa.Instruction) {
+			bo, ok := in.(*ssa.BinOp)
+			if !ok || (bo.Op != token.QUO && bo.Op != token.REM) {
+				return
+			}
+			if !dependsOn(bo.Y, isWidth) {
+				return
+			}
+			n++
+			if dependsOn(bo.X, func(v ssa.Value) bool { return v == ssa.Value(lineParam) }) {
+				bad++
+				r.Bad("C04.wide-wrap", fmt.Sprintf("strutil.LineSpan:div#%d", n), p.IPos(in), "rows / columns are the quotient / remainder of a width that includes the text of the line by the terminal width: after a double-width character wrapped before the last column, the cursor is computed one cell short")
+			}
+		})
+		if bad == 0 {
+			r.OK("C04.wide-wrap", "strutil.LineSpan:divisions", p.Pos(LS.Pos()), fmt.Sprintf("%d division(s) by the terminal width, none on a width that depends on the line", n))
+		}
+	} else {
+		r.Unk("C04.wide-wrap", "strutil.LineSpan", "-", "anchor not found")
+	}
 }
